@@ -20,7 +20,7 @@ Form definitions (parameter order as documented by beyond.orbits.forms):
   keplerian_eccentric      a e i Om w E        (H for hyperbolas: r = a (1 - e cosh H))
   keplerian_mean           a e i Om w M        (M = E - e sin E ; M = e sinh H - H)
   keplerian_circular       a ex ey i Om u      ex = e cos w, ey = e sin w, u = w + nu
-  keplerian_mean_circular  a ex ey i Om alpha  alpha = w + M
+  keplerian_mean_circular  a ex ey i Om alpha  alpha = w + M   (hyperbola: M is no angle; w taken in (-pi, pi])
   equinoctial              a ex ey ix iy l     ex = e cos(Om+w), ey = e sin(Om+w), ix = tan(i/2) cos Om,
                                                iy = tan(i/2) sin Om, l = Om + w + nu (true longitude)
   tle                      i Om e w M n        n = sqrt(mu / a^3)
@@ -112,7 +112,10 @@ def orbit_numbers(a, e, i, Om, w, M, mu):
     out["keplerian_eccentric"] = [a, e, i, Om, w, E]
     out["keplerian_mean"] = [a, e, i, Om, w, M]
     out["keplerian_circular"] = [a, e * math.cos(w), e * math.sin(w), i, Om, w + nu]
-    out["keplerian_mean_circular"] = [a, e * math.cos(w), e * math.sin(w), i, Om, w + M]
+    # hyperbola: M is a real number, not an angle, so alpha = w + M depends on the branch of w; the principal
+    # value (-pi, pi] is the one beyond's reader (keplerian_mean_circular -> keplerian_mean: w = arctan2(ey, ex),
+    # M = alpha - w) assumes, so a state written with it is read back by the library as intended
+    out["keplerian_mean_circular"] = [a, e * math.cos(w), e * math.sin(w), i, Om, (w if e < 1 else wrap(w)) + M]
     out["equinoctial"] = [
         a,
         e * math.cos(Om + w),
@@ -201,8 +204,7 @@ def from_cart(form, rv, mu):
         if form == "keplerian_circular":
             return [a, ex, ey, i, Om, math.atan2(r @ mhat, r @ nhat) % TWO_PI]
         if form == "keplerian_mean_circular":
-            al = w + k["M"]
-            return [a, ex, ey, i, Om, al % TWO_PI if e < 1 else al]
+            return [a, ex, ey, i, Om, (w + k["M"]) % TWO_PI if e < 1 else wrap(w) + k["M"]]
         if a <= 0:
             raise ValueError("TLE form undefined for a <= 0")
         return [i, Om, e, w, k["M"], math.sqrt(mu / a**3)]
@@ -250,9 +252,9 @@ def to_cart(form, six, mu):
     if form == "keplerian_mean_circular":
         a, ex, ey, i, Om, al = six
         e = math.hypot(ex, ey)
-        # for a hyperbola M is not an angle: alpha = w + M needs a branch for w; the one of the
-        # keplerian form, w in [0, 2 pi), is used (irrelevant for ellipses)
-        w = math.atan2(ey, ex) % TWO_PI
+        # for a hyperbola M is not an angle: alpha = w + M needs a branch for w; the principal value
+        # w in (-pi, pi] is used (irrelevant for ellipses) - see orbit_numbers()
+        w = math.atan2(ey, ex)
         return tb.kep_to_cart(a, e, i, Om, w, true_from_mean(al - w, e), mu)
     if form == "tle":
         i, Om, e, w, M, n = six
@@ -315,7 +317,8 @@ def selftest():
     for mu, rp in ((3.986004418e14, 7.0e6), (1e3, 10.0), (1.327e20, 2.0e10)):
         for e in (1e-4, 0.3, 0.99, 1.001, 1.61, 20.0):
             for i in (0.01, 0.9, 2.2, math.pi - 0.01):
-                for Om, w in ((0.0, 0.7), (3.5, 5.5), (6.0, math.pi)):
+                # (w = pi is the branch cut of the hyperbolic mean argument of latitude: 3.0 instead for e > 1)
+                for Om, w in ((0.0, 0.7), (3.5, 5.5), (6.0, math.pi if e < 1 else 3.0)):
                     for M in (-3.0, 0.0, 0.5, 3.3, 7.5) if e < 1 else (-200.0, -0.5, 4.0, 20.0):
                         a = rp / (1 - e)
                         nums, rv = orbit_numbers(a, e, i, Om, w, M, mu)
